@@ -2985,14 +2985,41 @@ Proof. rewrite run_trigger_mapg. apply place_rel_only_flags. apply trigF_only_fl
 Lemma place_rel_flag_keys k g c ks : place_rel k g (flag_keys c ks g).
 Proof. rewrite flag_keys_mapg. apply place_rel_only_flags. apply flagF_only_flags. Qed.
 
-Lemma place_rel_set_detached k g ks b : place_rel k g (set_detached_nodes g ks b).
+Lemma place_rel_set_detached_core k g ks b : place_rel k g (set_detached_nodes_core g ks b).
 Proof.
-  unfold set_detached_nodes.
+  unfold set_detached_nodes_core.
   match goal with |- place_rel k g (fold_left ?f ?l ?a) =>
     apply (fold_inv f (place_rel k g) l a) end.
   - exists (fun s => if mem_N (s_key s) ks then set_place s b (s_creator s) else s).
     split; [reflexivity|]. constructor; intros s; destruct (mem_N (s_key s) ks); auto.
   - intros a x Ha. eapply place_rel_trans; [exact Ha | apply place_rel_trigger].
+Qed.
+
+(* the optional trigger step_node_undefer_reattached only writes `deferred` *)
+Lemma undeferF_fields g ks s :
+  s_key (undeferF g ks s) = s_key s /\ s_safe (undeferF g ks s) = s_safe s /\
+  s_safe_nh (undeferF g ks s) = s_safe_nh s /\ s_state (undeferF g ks s) = s_state s /\
+  s_holding (undeferF g ks s) = s_holding s /\ s_chk_safe (undeferF g ks s) = s_chk_safe s /\
+  s_creator (undeferF g ks s) = s_creator s /\ s_ready (undeferF g ks s) = s_ready s /\
+  s_chk_ready (undeferF g ks s) = s_chk_ready s /\ s_need (undeferF g ks s) = s_need s /\
+  s_ineed (undeferF g ks s) = s_ineed s /\ s_tail (undeferF g ks s) = s_tail s /\
+  s_duration (undeferF g ks s) = s_duration s /\ s_chk_after (undeferF g ks s) = s_chk_after s /\
+  s_detached (undeferF g ks s) = s_detached s.
+Proof. unfold undeferF. destruct (s_deferred s && _); repeat split; reflexivity. Qed.
+
+Lemma place_rel_undefer k g ks : place_rel k g (undefer_consumers g ks).
+Proof.
+  exists (undeferF g ks). split; [reflexivity|].
+  constructor; intros s; destruct (undeferF_fields g ks s) as [A [B [C' [D [E [F [G _]]]]]]]; try assumption.
+  - intros H. rewrite F. exact H.
+  - intros _. exact G.
+Qed.
+
+Lemma place_rel_set_detached k g ks b : place_rel k g (set_detached_nodes g ks b).
+Proof.
+  unfold set_detached_nodes. destruct (trg_undefer_on_reattach && negb b).
+  - eapply place_rel_trans; [apply place_rel_set_detached_core | apply place_rel_undefer].
+  - apply place_rel_set_detached_core.
 Qed.
 
 Lemma place_rel_set_place k g det cr :
@@ -3200,7 +3227,7 @@ Section SetDetached.
       ++ map o_key (filter (fun o => mem_N (o_key o) ks && negb (Bool.eqb (o_detached o) b)) (g_others g)).
   Let stepf := fun (acc : graph) (k : N) => run_trigger trg_node_detached k None acc.
 
-  Lemma sdn_unfold : set_detached_nodes g ks b = fold_left stepf flipped g1.
+  Lemma sdn_unfold : set_detached_nodes_core g ks b = fold_left stepf flipped g1.
   Proof. reflexivity. Qed.
 
   (* steps whose readiness may change: consumers of a file whose detached flag flips *)
@@ -3279,7 +3306,7 @@ Section SetDetached.
     apply H; [reflexivity | right; exact Hkf].
   Qed.
 
-  Theorem set_detached_nodes_ready_sound : FlagInv_ready g -> FlagInv_ready (set_detached_nodes g ks b).
+  Theorem set_detached_nodes_core_ready_sound : FlagInv_ready g -> FlagInv_ready (set_detached_nodes_core g ks b).
   Proof.
     intros HF. rewrite sdn_unfold. set (gF := fold_left stepf flipped g1).
     assert (R : rrel g1 gF) by (apply sdn_rrel_fold; apply rrel_refl).
@@ -3306,6 +3333,22 @@ Section SetDetached.
     rewrite (Pc Ec') in Hc. discriminate.
   Qed.
 End SetDetached.
+
+Lemma rrel_undefer g ks : rrel g (undefer_consumers g ks).
+Proof.
+  split; [reflexivity|]. split; [reflexivity|]. exists (undeferF g ks). split; [reflexivity|].
+  intros s. destruct (undeferF_fields g ks s) as [A [_ [_ [_ [_ [_ [_ [R [C' _]]]]]]]]].
+  split; [exact A|]. split; [exact R|]. intros H. rewrite C'. exact H.
+Qed.
+
+Theorem set_detached_nodes_ready_sound g ks b : In (FReady, TConsumersOfSelf) trg_node_detached ->
+  FlagInv_ready g -> FlagInv_ready (set_detached_nodes g ks b).
+Proof.
+  intros Htrg HF. unfold set_detached_nodes.
+  pose proof (set_detached_nodes_core_ready_sound g ks b Htrg HF) as H.
+  destruct (trg_undefer_on_reattach && negb b); [|exact H].
+  eapply rrel_sound; [apply rrel_undefer | exact H].
+Qed.
 
 Theorem detach_step_ready_sound g k :
   In (FReady, TConsumersOfSelf) trg_node_detached -> FlagInv_ready g -> FlagInv_ready (detach_step g k).
@@ -3460,11 +3503,11 @@ Proof.
   intros s Hs. destruct (s_key s =? k) eqn:E; [apply N.eqb_eq in E; contradiction | reflexivity].
 Qed.
 
-Lemma drel_set_detached k g ks b :
+Lemma drel_set_detached_core k g ks b :
   drel_ex k (fun x d => if mem_N x ks then b else d) (fun x d => if mem_N x ks then b else d) g
-          (set_detached_nodes g ks b).
+          (set_detached_nodes_core g ks b).
 Proof.
-  unfold set_detached_nodes.
+  unfold set_detached_nodes_core.
   match goal with |- drel_ex _ _ _ g (fold_left ?f ?l ?a) =>
     apply (fold_inv f (drel_ex k (fun x d => if mem_N x ks then b else d) (fun x d => if mem_N x ks then b else d) g) l a) end.
   - exists (fun s => if mem_N (s_key s) ks then set_place s b (s_creator s) else s),
@@ -3475,6 +3518,24 @@ Proof.
       try (intros f; destruct (mem_N (f_key f) ks); auto; fail);
       try (intros o; destruct (mem_N (o_key o) ks); auto; fail).
   - intros a x Ha. eapply drel_phi_ext; [| |eapply drel_trans; [exact Ha | apply drel_trigger]]; reflexivity.
+Qed.
+
+Lemma drel_undefer k g ks : drel_ex k (fun _ d => d) (fun _ d => d) g (undefer_consumers g ks).
+Proof.
+  exists (undeferF g ks), (fun f => f), (fun o => o).
+  constructor; try reflexivity; try (symmetry; apply map_id); auto;
+    intros s; destruct (undeferF_fields g ks s) as [A [_ [_ [_ [_ [_ [G [_ [_ [Nd [In_ [T [Du [Ca De]]]]]]]]]]]]]]; try assumption.
+  - intros H. rewrite Ca. exact H.
+  - intros _. exact G.
+Qed.
+
+Lemma drel_set_detached k g ks b :
+  drel_ex k (fun x d => if mem_N x ks then b else d) (fun x d => if mem_N x ks then b else d) g
+          (set_detached_nodes g ks b).
+Proof.
+  unfold set_detached_nodes. destruct (trg_undefer_on_reattach && negb b).
+  - eapply drel_phi_ext; [| |eapply drel_trans; [apply drel_set_detached_core | apply drel_undefer]]; reflexivity.
+  - apply drel_set_detached_core.
 Qed.
 
 (* ---- the creator forest below k does not depend on k's own creator ---- *)
